@@ -399,6 +399,7 @@ type GhostUpdate struct {
 	When   string // before | after
 	Assume bool   // call-site assumption about an external callee (trusted, listed)
 	Seq    int    // declaration order
+	Optional bool // "@?anchor": no error when the anchor matches no call
 }
 
 var anchorSeq int
@@ -863,6 +864,10 @@ func parseAnchored(r string, isUpdate bool) (*GhostUpdate, error) {
 		anchor = anchor[:len(anchor)-len(m[0])]
 	}
 	gu.Anchor = stripWS(anchor)
+	if strings.HasPrefix(gu.Anchor, "?") {
+		gu.Anchor = gu.Anchor[1:]
+		gu.Optional = true
+	}
 	if isUpdate {
 		i := strings.Index(body, "=")
 		if i < 0 {
